@@ -294,7 +294,9 @@ def read_env(src, expr, skip_envs=(), tolerance=0, mode=MODE_NON_MATH):
     if error and tolerance == 0:
         unclosed_env_handler(src, expr, src.peek((0, 6)))
     elif not error:
-        src.forward(5)
+        src.forward(2)  # escape and `end`
+        read_spacer(src)  # whitespace is allowed before the name group
+        read_arg(src, next(src), tolerance=tolerance, mode=mode)  # {name}
     expr.append(*contents)
     return expr
 
